@@ -40,6 +40,11 @@ RULE = ("cases = (device LPF|BPF, order 1..8, cut-off/fs in (0.01,0.45) incl. bo
         "(a third of the BPF cases, a ninth of the LPF cases); a third of the cases draw the absolute cut-off from {1,2,4} GHz so that the same (BW, order) "
         "recurs in one process under different sampling rates) + histories (same BW and order under 3 sampling rates in sequence and back, "
         "via gv or LPF's fs=, each call sent to the model and compared with a freshly designed scipy reference) "
+        "; gv configured in every way ((sps,R), (sps,fs), (R,fs) with fs not a multiple of R, fs alone, slot count N in force) for a third "
+        "of the LPF/BPF cases, a third of the tone (cut-off) cases and one step of every history, cut-offs and the model referring to the "
+        "REQUESTED rate; every real call runs under an operand monitor (operand bytes unchanged, result is a new object, no shared memory); "
+        "every LPF/BPF case repeats the call on the same object, calls positionally in the documented order vs by keyword, and (LPF) with "
+        "retH=True; tones are carried by the signal AND the noise component, for LPF also with retH=True "
         "+ long records (65537, 100000, 131072 samples; LPF and BPF; 1 and 2 polarisations; Gaussian pulses at different instants on every "
         "row of signal and noise; the WHOLE record goes through the Lean model and the symmetric-pulse / zero-delay clause is checked per row) "
         "+ tone / pulse / retH / too-short records; non-trivial = filter applied to a "
@@ -63,6 +68,25 @@ GVS = [(16, 1e9), (8, 10e9), (4, 2.5e9), (33, 1e9), (16, 40e9)]
 # each is inside (0.01, 0.45)*fs for the first four entries of GVS (fs = 16, 80, 10, 33 GS/s)
 WN_FIXED = [1e9, 2e9, 4e9]
 GVS_FIXED = GVS[:4]
+# documented positional order of the anchored functions (signatures of /repo HEAD 8caea4c; literal on purpose)
+POSITIONAL = {"LPF": ["input", "BW", "n", "fs", "retH"], "BPF": ["input", "BW", "n"]}
+# every way of configuring gv: (sps,R), (sps,fs), (R,fs) with NON-integer fs/R, fs alone (R stays at its default), slot count N in force
+GV_CONFIGS = [{"sps": 16, "R": 1e9}, {"sps": 8, "fs": 20e9}, {"R": 10e9, "fs": 25e9}, {"R": 2.5e9, "fs": 33e9}, {"R": 3e9, "fs": 10e9},
+              {"fs": 12.5e9}, {"fs": 16e9}, {"R": 10e9, "fs": 25e9, "N": 4}, {"sps": 8, "R": 5e9, "N": 3}, {"sps": 5, "fs": 12e9, "N": 2}]
+GV_NONINT = [{"R": 10e9, "fs": 25e9}, {"R": 2.5e9, "fs": 33e9}, {"R": 3e9, "fs": 10e9}, {"fs": 12.5e9}, {"R": 10e9, "fs": 25e9, "N": 4}]
+# for the histories (absolute cut-offs 1/2/4 GHz stay inside (0.01,0.45)*fs)
+GV_HIST_EXTRA = [{"R": 10e9, "fs": 25e9}, {"fs": 12.5e9}, {"sps": 8, "fs": 20e9, "N": 4}]
+
+
+def _fs_requested(cfg):
+    """the sampling rate a gv(...) call asks for (gv.R defaults to 1e9 after gv.clean())"""
+    if "fs" in cfg and not ("sps" in cfg and "R" in cfg):
+        return float(cfg["fs"])
+    return float(int(round(cfg["sps"])) * cfg["R"])
+
+
+def _gvcfg(case):
+    return case.get("gvcfg") or {"sps": case["sps"], "R": case["R"]}
 
 
 # ------------------------------------------------------------------------------------------------ generators
@@ -109,6 +133,8 @@ def gen_cases(rng, tier):
                      "nscale": rng.choice([0.1, 0.1, 1.0, 1e-11]),            # noise level relative to the signal level
                      "hom": rng.choice([1e-15, 1e-13, 1e-9, 1e9]),            # homogeneity factor: F(h x) = h F(x)
                      "a": [rng.uniform(-3, 3), rng.uniform(-3, 3)], "b": [rng.uniform(-3, 3), rng.uniform(-3, 3)]}
+                if rep % 3 == 0:
+                    c["gvcfg"] = dict(rng.choice(GV_CONFIGS))
                 if rep % 3 == 2:
                     # the SAME absolute cut-off recurs across cases of the run under different sampling rates
                     c["sps"], c["R"] = rng.choice(GVS_FIXED)
@@ -140,6 +166,12 @@ def gen_cases(rng, tier):
                           "order": order, "fcn": fcn, "sps": sps, "R": R, "npol": rng.choice([1, 2]),
                           "phase": rng.uniform(0, 6.28), "amp": rng.choice([1e-13, 0.01, 1.0, 7.0, 1e9]), "seed": rng.getrandbits(32),
                           "fs_arg": rng.choice([None, 3.3e9, 7e10])})
+            if k == 2 or (k >= 4 and k % 2 == 0):
+                # cut-off clause under every way of configuring gv; non-integer fs/R for both devices in every run
+                t = cases[-1]
+                t["dev"] = "bpf" if (order + k // 2) % 2 == 0 else "lpf"
+                t["gvcfg"] = dict(GV_NONINT[(order + k) % len(GV_NONINT)] if k == 2 else rng.choice(GV_CONFIGS))
+                t["fs_arg"] = None
             if k >= 1 and k % 2 == 1:
                 t = cases[-1]
                 t["sps"], t["R"] = rng.choice(GVS_FIXED)
@@ -168,10 +200,12 @@ def gen_cases(rng, tier):
     for order in range(1, 9):
         for hdev in (["lpf", "bpf", "lpf-fs"] if not quick else [["lpf", "bpf", "lpf-fs"][(order + j) % 3] for j in range(2)]):
             for _ in range(1 if quick else 3):
-                seq = rng.sample(GVS_FIXED, 3)
+                seq = rng.sample(GVS_FIXED, 2) + [rng.choice(GV_HIST_EXTRA)]
+                rng.shuffle(seq)
+                seq = [g if isinstance(g, dict) else {"sps": g[0], "R": g[1]} for g in seq]
                 seq = seq + [seq[0]]
-                hist.append({"kind": "hist", "dev": hdev, "order": order, "wn": rng.choice(WN_FIXED), "seq": [list(g) for g in seq],
-                              "sps": seq[0][0], "R": seq[0][1], "n": rng.randint(_edge(order) + 1, 90), "npol": rng.choice([1, 2]) if hdev == "bpf" else 1,
+                hist.append({"kind": "hist", "dev": hdev, "order": order, "wn": rng.choice(WN_FIXED), "seq": [dict(g) for g in seq],
+                              "sps": 16, "R": 1e9, "n": rng.randint(_edge(order) + 1, 90), "npol": rng.choice([1, 2]) if hdev == "bpf" else 1,
                               "noise": rng.random() < 0.5, "scale": 1.0, "seed": rng.getrandbits(32)})
     rng.shuffle(hist)
     # long records (longer than any plausible internal block size: 2^16+1, 1e5, 2^17), 1 and 2 polarisations, LPF and BPF:
@@ -332,13 +366,57 @@ def _mk(dev_name, s, nz, npol):
     return electrical_signal(s, nz)
 
 
-def _call(dev_name, x, case, bw):
+_MON = []          # operand monitor findings of the current run_impl
+
+
+def _arrays(obj):
+    if isinstance(obj, np.ndarray):
+        return [("array", obj)]
+    out = [("signal", obj.signal)]
+    if getattr(obj, "noise", None) is not None:
+        out.append(("noise", obj.noise))
+    return out
+
+
+def _monitored(fname, func, x, *args, **kw):
+    """every real LPF/BPF call: the operand must come back untouched (same bytes, same noise presence), the result must be a new
+    object and must not share memory with the operand"""
+    before = [(nm, a, a.tobytes(), a.dtype, a.shape) for nm, a in _arrays(x)]
+    out = func(x, *args, **kw)
+    y = out[0] if isinstance(out, tuple) else out
+    after = _arrays(x)
+    if [nm for nm, *_ in before] != [nm for nm, _ in after]:
+        _MON.append(("operand-modified", f"{fname}: the operand's noise component appeared/disappeared"))
+    for (nm, a0, b0, dt, sh), (_, a1) in zip(before, after):
+        if a1 is not a0 or a1.dtype != dt or a1.shape != sh or a1.tobytes() != b0:
+            _MON.append(("operand-modified", f"{fname}: the operand's .{nm} was changed by the call"
+                                             + (" (array replaced)" if a1 is not a0 else " (samples overwritten)")))
+    if y is x:
+        _MON.append(("result-is-operand", f"{fname} returned its own operand object"))
+    elif hasattr(y, "signal"):
+        for nm, a in _arrays(x):
+            for nm2, b in _arrays(y):
+                if np.shares_memory(a, b):
+                    _MON.append(("result-aliases-operand", f"{fname}: result .{nm2} shares memory with the operand's .{nm}"))
+    return out
+
+
+def _call(dev_name, x, case, bw, **kw):
     from opticomlib.devices import LPF, BPF
     if dev_name == "bpf":
-        return BPF(x, bw, case["order"])
+        return _monitored("BPF", BPF, x, bw, case["order"])
     if case.get("fs_arg"):
-        return LPF(x, bw, case["order"], fs=case["fs_arg"])
-    return LPF(x, bw, case["order"])
+        return _monitored("LPF", LPF, x, bw, case["order"], fs=case["fs_arg"], **kw)
+    return _monitored("LPF", LPF, x, bw, case["order"], **kw)
+
+
+def _same(p, q):
+    """two result containers equal bit for bit (signal and noise, noise presence, class)"""
+    if type(p) is not type(q) or (p.noise is None) != (q.noise is None):
+        return False
+    if p.signal.shape != q.signal.shape or p.signal.dtype != q.signal.dtype or p.signal.tobytes() != q.signal.tobytes():
+        return False
+    return p.noise is None or (p.noise.shape == q.noise.shape and p.noise.tobytes() == q.noise.tobytes())
 
 
 def _maxabs(a):
@@ -378,8 +456,13 @@ def run_impl(case):
         with warnings.catch_warnings():
             warnings.simplefilter("ignore")
             gv.clean()
-            gv(sps=case["sps"], R=case["R"])
-            fs = float(case.get("fs_arg") or gv.fs) if devn == "lpf" else float(gv.fs)
+            del _MON[:]
+            cfg = _gvcfg(case)
+            gv(**cfg)
+            # the rate the session was ASKED to run at (not read back from gv): cut-offs, tones and the model refer to it
+            fs_req = _fs_requested(cfg)
+            res["gv_fs"], res["fs_req"] = float(gv.fs), fs_req
+            fs = float(case.get("fs_arg") or fs_req) if devn == "lpf" else fs_req
             res["fs"] = fs
             with _Spy(dev) as spy, time_limit(60):
                 if kind in ("lpf", "bpf", "short"):
@@ -401,6 +484,7 @@ def run_impl(case):
     except Exception as e:  # noqa
         res.update(status="err", err=exc_enum(e), detail=repr(e)[:200])
     finally:
+        res["monitor"] = sorted({(a, b) for a, b in _MON})
         try:
             gv.clean()
         except Exception:
@@ -466,6 +550,37 @@ def _run_main(case, devn, fs, spy, res):
         res["polswap"] = _maxabs(ysp.signal[::-1] - y.signal)
         yone = _call(devn, _mk(devn, s[1].copy(), None, 1), case, bw)
         res["pol_alone"] = _maxabs(yone.signal - y.signal[1])
+    # the same object filtered again gives the same result (the operand is not consumed)
+    yrep = _call(devn, x, case, bw)
+    res["repeat"] = _same(yrep, y)
+    # positional twin: documented order POSITIONAL[...] vs every argument by keyword, bit-identical results
+    from opticomlib.devices import LPF, BPF
+    try:
+        if devn == "bpf":
+            names = POSITIONAL["BPF"]
+            vals = [x, bw, case["order"]]
+            yp = _monitored("BPF", BPF, *vals)
+            yk = BPF(**dict(zip(names, vals)))
+            res["positional"] = _same(yp, yk) and _same(yp, y)
+        else:
+            names = POSITIONAL["LPF"]
+            vals = [x, bw, case["order"], case.get("fs_arg"), False]
+            yp = _monitored("LPF", LPF, *vals)
+            yk = LPF(**dict(zip(names, vals)))
+            res["positional"] = _same(yp, yk) and _same(yp, y)
+            vals[4] = True
+            rp = _monitored("LPF", LPF, *vals)
+            rk = LPF(**dict(zip(names, vals)))
+            ok = isinstance(rp, tuple) and isinstance(rk, tuple) and len(rp) == 2 and len(rk) == 2
+            res["positional_reth"] = bool(ok and _same(rp[0], rk[0]) and np.array_equal(np.asarray(rp[1]), np.asarray(rk[1])))
+            # retH=True must not change what happens to the signal and to the NOISE: same output object value-wise
+            res["reth_same"] = bool(ok and _same(rp[0], y))
+            res["reth_noise_present"] = bool(ok and (rp[0].noise is not None) == (y.noise is not None))
+    except Timeout:
+        raise
+    except Exception as e:  # noqa
+        res["positional"] = False
+        res["positional_err"] = repr(e)[:200]
     # constants
     cval = case["scale"] * (complex(1.7, -0.6) if devn == "bpf" else -2.3)
     n = case["n"]
@@ -500,13 +615,25 @@ def _run_tone(case, devn, fs, spy, res):
             s = row if npol == 1 else np.array([row, 0.5j * row])
         else:
             s = case["amp"] * np.cos(2 * np.pi * fn * k + case["phase"])
-        y = _call(devn, _mk(devn, s, None, npol), case, bw)
-        for xr, yr in zip(_rows(s), _rows(y.signal)):
-            g, resid = _fit(xr, yr, fn, lo, hi, devn == "bpf")
-            p_in = float(np.mean(np.abs(xr[lo:hi]) ** 2))
-            p_out = float(np.mean(np.abs(yr[lo:hi]) ** 2))
-            gains.append({"fn": fn, "g": abs(g), "ph": float(np.angle(g)), "resid": resid, "pratio": p_out / p_in})
-    res.update(status="ok", gains=gains, n=n, rows=npol)
+        # the noise component carries a tone of its own (other amplitude and phase): every clause applies to it alike
+        nzt = s * (0.37 * np.exp(0.8j)) if devn == "bpf" else 0.37 * case["amp"] * np.cos(2 * np.pi * fn * k + case["phase"] + 0.8)
+        y = _call(devn, _mk(devn, s, nzt, npol), case, bw)
+        groups = [("signal", s, y.signal), ("noise", nzt, y.noise)]
+        if devn == "lpf":
+            yr_ = _call(devn, _mk(devn, s, nzt, npol), case, bw, retH=True)
+            yr_ = yr_[0] if isinstance(yr_, tuple) else yr_
+            groups += [("signal/retH=True", s, yr_.signal), ("noise/retH=True", nzt, yr_.noise)]
+        for gname, xin, yout in groups:
+            if yout is None:
+                gains.append({"grp": gname, "fn": fn, "g": float("nan"), "ph": float("nan"), "resid": float("nan"), "pratio": float("nan")})
+                continue
+            for ri, (xr, yr) in enumerate(zip(_rows(xin), _rows(yout))):
+                g, resid = _fit(xr, yr, fn, lo, hi, devn == "bpf")
+                p_in = float(np.mean(np.abs(xr[lo:hi]) ** 2))
+                p_out = float(np.mean(np.abs(yr[lo:hi]) ** 2))
+                gains.append({"grp": f"{gname} row {ri}", "fn": fn, "g": abs(g), "ph": float(np.angle(g)), "resid": resid,
+                              "pratio": p_out / p_in})
+    res.update(status="ok", gains=gains, n=n, rows=sorted({g["grp"] for g in gains}))
     res["params"], res["remarks"] = _params(spy)
 
 
@@ -531,19 +658,22 @@ def _run_hist(case, spy, res):
 
     def call(x, fs_arg):
         if devn == "bpf":
-            return BPF(x, bw, order)
-        return LPF(x, bw, order, fs=fs_arg) if fs_arg else LPF(x, bw, order)
-    for i, (sps, R) in enumerate(case["seq"]):
+            return _monitored("BPF", BPF, x, bw, order)
+        return _monitored("LPF", LPF, x, bw, order, fs=fs_arg) if fs_arg else _monitored("LPF", LPF, x, bw, order)
+    for i, cfg in enumerate(case["seq"]):
         st = {"i": i}
         steps.append(st)
+        if isinstance(cfg, (list, tuple)):                       # older replay files
+            cfg = {"sps": cfg[0], "R": cfg[1]}
         if hdev == "lpf-fs":
             gv.clean()
-            gv(sps=case["seq"][0][0], R=case["seq"][0][1])       # gv stays put; the rate is given explicitly
-            fs, fs_arg = float(sps * R), float(sps * R)
+            gv(**case["seq"][0]) if isinstance(case["seq"][0], dict) else gv(sps=case["seq"][0][0], R=case["seq"][0][1])
+            fs, fs_arg = _fs_requested(cfg), _fs_requested(cfg)   # gv stays put; the rate is given explicitly
         else:
             gv.clean()
-            gv(sps=sps, R=R)
-            fs, fs_arg = float(gv.fs), None
+            gv(**cfg)
+            fs, fs_arg = _fs_requested(cfg), None                 # the REQUESTED rate
+            st["gv_fs"] = float(gv.fs)
         st["fs"] = fs
         fcn = wn / fs
         st["fcn"] = fcn
@@ -658,7 +788,7 @@ def _run_reth(case, fs, spy, res):
     r = np.random.default_rng(case["seed"])
     x = r.normal(size=n)
     kw = {"fs": case["fs_arg"]} if case.get("fs_arg") else {}
-    out = LPF(x, bw, case["order"], retH=True, **kw)
+    out = _monitored("LPF", LPF, x, bw, case["order"], retH=True, **kw)
     if not (isinstance(out, tuple) and len(out) == 2):
         res.update(status="ok", reth_form="not a pair")
         return
@@ -683,7 +813,7 @@ def _run_reth(case, fs, spy, res):
     for kb in sorted({max(1, kc // 2), kc, min((n - 1) // 2 - 1, kc + (n // 2 - kc) // 3)}):
         fn = kb / n
         t = np.cos(2 * np.pi * fn * kk + 0.3)
-        yt = LPF(t, bw, case["order"], **kw).signal
+        yt = _monitored("LPF", LPF, t, bw, case["order"], **kw).signal
         g, resid = _fit(t, yt, fn, nl // 3, 2 * nl // 3, False)
         meas.append({"kb": int(kb), "g2pass": abs(g), "H2": float(abs(H[c + kb]) ** 2), "resid": resid})
     res["meas"] = meas
@@ -859,6 +989,17 @@ def _clean(g):
 
 
 def oracle(case, res):
+    """clauses common to every case (operand monitor, sampling rate in force) + the clauses of the case's kind"""
+    devn = case.get("dev", case["kind"])
+    v = []
+    for tag, msg in res.get("monitor") or []:
+        v.append((f"C11:{devn}-{tag}", msg))
+    if "gv_fs" in res and not (res["gv_fs"] == res["fs_req"]):
+        v.append(("C11:gv-fs", f"gv(**{_gvcfg(case)}) leaves gv.fs = {res['gv_fs']!r}, requested {res['fs_req']!r}"))
+    return v + _oracle_kind(case, res)
+
+
+def _oracle_kind(case, res):
     kind = case["kind"]
     devn = case.get("dev", kind)
     if res.get("status") == "timeout":
@@ -909,6 +1050,18 @@ def oracle(case, res):
                 v.append((f"C11:{devn}-pol-alike", f"exchanging the polarisations does not exchange the outputs (diff {res['polswap']:.3e})"))
             if not (res["pol_alone"] <= 1e-12 * res["scale"]):
                 v.append((f"C11:{devn}-pol-independent", f"a polarisation is filtered differently alone and beside the other (diff {res['pol_alone']:.3e})"))
+        if not res.get("repeat", False):
+            v.append((f"C11:{devn}-repeat", "filtering the same input object a second time gives a different result"))
+        fname = "BPF" if devn == "bpf" else "LPF"
+        if not res.get("positional", False):
+            v.append((f"C11:positional:{fname}", f"{fname}({', '.join(POSITIONAL[fname])}) called positionally in the documented order differs from the "
+                                                f"keyword call / the plain call ({res.get('positional_err', 'results differ')})"))
+        if devn == "lpf" and "positional_err" not in res:
+            if not res.get("positional_reth", False):
+                v.append(("C11:positional:LPF", "LPF(input, BW, n, fs, True) positionally differs from LPF(..., retH=True) by keyword"))
+            if not res.get("reth_noise_present", False) or not res.get("reth_same", False):
+                v.append(("C11:lpf-retH-same-output", "LPF(x, ..., retH=True)[0] is not the same output (signal AND noise) as LPF(x, ...)"
+                          + (" for an input that carries noise" if res["has_noise_in"] else "")))
         if real_in or devn == "bpf":
             if not (res["const"] <= 1e-9 * n):
                 v.append((f"C11:{devn}-dc-gain", f"a constant input is changed by {res['const']:.3e} (relative, n={n})"))
@@ -934,12 +1087,12 @@ def oracle(case, res):
         return v
     if kind == "tone":
         fc = res.get("fcn", case["fcn"])
-        rows = res["rows"]
-        for r in range(rows):
-            gs = [g for i, g in enumerate(res["gains"]) if i % rows == r]
+        for grp in res["rows"]:
+            gs = [g for g in res["gains"] if g["grp"] == grp]
+            devn = f"{case['dev']}" if grp.startswith("signal row") else f"{case['dev']}-{grp.split(' row')[0].replace('/', '-')}"
             for g in gs:
                 if not all(math.isfinite(g[k]) for k in ("g", "ph", "resid", "pratio")):
-                    v.append((f"C11:{devn}-nonfinite", f"tone at {g['fn']:.4f} fs: non-finite output ({g})"))
+                    v.append((f"C11:{devn}-nonfinite", f"tone at {g['fn']:.4f} fs ({grp}): non-finite / missing output ({g})"))
                     continue
                 clean = _clean(g)
                 if abs(abs(g["fn"]) - fc) < 1e-15 and clean:
@@ -997,6 +1150,8 @@ def _oracle_hist(case, res):
     n = case["n"]
     for st in res["steps"]:
         where = f"call {st['i'] + 1} of {len(res['steps'])} with the same BW and order, fs={st['fs']:.4g} (cut-off {st['fcn']:.4f} fs)"
+        if "gv_fs" in st and not (st["gv_fs"] == st["fs"]):
+            v.append(("C11:gv-fs", f"{where}: gv reports fs = {st['gv_fs']!r} after being configured with {case['seq'][st['i']]}"))
         if st.get("status") != "ok":
             v.append((f"C11:{hdev}-history-raises", f"{where}: {st.get('detail')}"))
             continue
@@ -1033,6 +1188,10 @@ def features(case, res):
         f += [f"noise-level={case.get('nscale')}" if case["noise"] else "noise-level=none", f"hom={case.get('hom'):g}"]
     if kind == "tone":
         f.append(f"amp={case['amp']:g}")
+    if "gvcfg" in case or kind == "hist":
+        cfgs = [case["gvcfg"]] if "gvcfg" in case else [c for c in case["seq"] if isinstance(c, dict)]
+        for c in cfgs:
+            f.append("gv(" + ",".join(sorted(c)) + ")" + ("/fs-not-multiple-of-R" if "fs" in c and "sps" not in c and abs(c["fs"] / c.get("R", 1e9) - round(c["fs"] / c.get("R", 1e9))) > 1e-9 else ""))
     if kind == "long":
         f += [f"long-n={case['n']}", f"npol={case['npol']}", "noise" if case["noise"] else "no-noise"]
     if kind == "reth":
